@@ -158,7 +158,9 @@ theorem mono_asElem_step (W : World) (f : Nat) (ih : MonoAt W f) :
   split
   · exact ih.for_ _ _ _ _ _ _
   · split
-    · exact ih.list _ _ _
+    · split
+      · exact ih.tmpl _ _ _ _
+      · exact ih.list _ _ _
     · exact ih.plain _ _ _ _ _
 
 theorem mono_vfor_step (W : World) (f : Nat) (ih : MonoAt W f) :
